@@ -1,7 +1,7 @@
 //! E-prog: runner for checks whose cases are IR modules drawn from index -> program families.
 
-use cvx_core::engine::{trace_case, ChunkResult, Tier, Violation};
-use cvx_core::gen_basic::Family;
+use cvx_core::engine::{skip_cases, trace_case_at, ChunkResult, Tier, Violation};
+use cvx_core::gen_basic::{CfgLite, Family};
 use cvx_core::ir::Module;
 use cvx_core::shrink;
 use serde_json::{json, Value as J};
@@ -16,7 +16,7 @@ pub enum JR {
 
 pub trait Judge: Sync {
     fn property(&self) -> &'static str;
-    fn judge(&self, m: &Module) -> JR;
+    fn judge(&self, m: &Module, cfg: Option<&CfgLite>) -> JR;
 }
 
 pub const CHUNK: u64 = 1000;
@@ -50,13 +50,16 @@ fn locate(fams: &[Box<dyn Family>], mut idx: u64) -> Option<(&dyn Family, u64)> 
     None
 }
 
-pub fn violation_for(judge: &dyn Judge, m: &Module, class: &str, what: &str, origin: J) -> Violation {
-    let js = serde_json::to_string(m).unwrap();
+pub fn violation_for(judge: &dyn Judge, m: &Module, cfg: Option<&CfgLite>, class: &str, what: &str, origin: J) -> Violation {
+    let mut js = serde_json::to_string(m).unwrap();
+    if let Some(c) = cfg {
+        js.push_str(&serde_json::to_string(c).unwrap());
+    }
     Violation::new(
         judge.property(),
         format!("{class}:{:016x}", fnv(&js)),
         format!("{what} || minimal program: {}", shrink::render(m)),
-        json!({"module": m, "origin": origin}),
+        json!({"module": m, "cfg": cfg, "origin": origin}),
     )
 }
 
@@ -72,13 +75,18 @@ pub fn run_unit_with<'j>(judge_for: &dyn Fn(&str) -> &'j dyn Judge, fams: &[Box<
     let mut distinct: HashSet<u64> = HashSet::new();
     let mut shrunk: BTreeMap<String, u32> = BTreeMap::new();
     for idx in lo..hi {
+        if idx - lo < skip_cases() {
+            continue;
+        }
         let Some((fam, i)) = locate(fams, idx) else { break };
         let m = fam.case(i);
+        let cfg = fam.cfg(i);
+        let cfg = cfg.as_ref();
         let judge = judge_for(fam.name());
-        trace_case(|| json!({"module": m, "origin": {"family": fam.name(), "index": i}}));
+        trace_case_at(idx - lo, || json!({"module": m, "cfg": cfg, "origin": {"family": fam.name(), "index": i}}));
         out.evaluations += 1;
         out.traces += 1;
-        match judge.judge(&m) {
+        match judge.judge(&m, cfg) {
             JR::Pass { outcome, fingerprint } => {
                 out.outcome(outcome);
                 if distinct.insert(fingerprint) {
@@ -103,16 +111,16 @@ pub fn run_unit_with<'j>(judge_for: &dyn Fn(&str) -> &'j dyn Judge, fams: &[Box<
                     continue;
                 }
                 *n += 1;
-                let mut still = |v: &Module| match judge.judge(v) {
+                let mut still = |v: &Module| match judge.judge(v, cfg) {
                     JR::Fail { class, .. } => Some(class),
                     _ => None,
                 };
                 let small = shrink::shrink(&m, &class, &mut still, SHRINK_BUDGET);
-                let what2 = match judge.judge(&small) {
+                let what2 = match judge.judge(&small, cfg) {
                     JR::Fail { what, .. } => what,
                     _ => what,
                 };
-                out.violation(violation_for(judge, &small, &class, &what2, json!({"family": fam.name(), "index": i})));
+                out.violation(violation_for(judge, &small, cfg, &class, &what2, json!({"family": fam.name(), "index": i})));
             }
         }
     }
@@ -120,8 +128,9 @@ pub fn run_unit_with<'j>(judge_for: &dyn Fn(&str) -> &'j dyn Judge, fams: &[Box<
 
 pub fn replay(judge: &dyn Judge, case: &J) -> Option<Violation> {
     let m: Module = serde_json::from_value(case["module"].clone()).ok()?;
-    match judge.judge(&m) {
-        JR::Fail { class, what } => Some(violation_for(judge, &m, &class, &what, case["origin"].clone())),
+    let cfg: Option<CfgLite> = serde_json::from_value(case["cfg"].clone()).ok().flatten();
+    match judge.judge(&m, cfg.as_ref()) {
+        JR::Fail { class, what } => Some(violation_for(judge, &m, cfg.as_ref(), &class, &what, case["origin"].clone())),
         _ => None,
     }
 }
